@@ -166,6 +166,7 @@ fn triples(n: u32, es: u32) -> BoxedStrategy<(u32, u32, u32)> {
         1 => gen::tie_triple(n, es),
         1 => gen::near_tie_triple(n, es),
         1 => gen::sparse_tie_triple(n, es),
+        1 => gen::sparse_mul_pair(n, es).prop_map(|(a, b)| (a, b, 0)),
     ]
     .prop_map(move |(a, b, c)| ((a << sh) as u32, (b << sh) as u32, (c << sh) as u32))
     .boxed()
